@@ -8,6 +8,22 @@ VERIF = os.path.dirname(os.path.dirname(os.path.abspath(__file__)))
 ALL = [f"C{i:02d}" for i in range(1, 21)]
 
 CHECKS = {
+    "C04": dict(
+        category="exploration",
+        technique="bounded-exhaustive enumeration of structure trees x END forms x spacing styles against the renderer's source map; all substring queries for workspace/symbol",
+        text=("Exhaustive enumeration of structure trees up to a node budget — modules with derived types (components, "
+              "bindings), named generic and abstract interfaces and module procedures; submodules; programs and external "
+              "procedures with internal procedures (CONTAINS) and executable constructs (BLOCK, DO plain/named/labelled, IF, "
+              "SELECT CASE, ASSOCIATE, WHERE, nested) — each rendered with 5 END forms x 3 spacing styles. The renderer "
+              "records the line of every opening and END statement, which gives the expected outline (exactly once, kind, "
+              "container, start and end line, type members under their type); workspace/symbol is asked for every substring "
+              "of length <= 3 of every name in lower/upper/mixed case plus '' and a non-matching query and must return exactly "
+              "the matching top-level units and module members, sorted."),
+        note=("Trusted: the renderer of vf/checks/c04.py (a sample of its output is valid per gfortran). Entries the statement "
+              "neither demands nor forbids (internal '#' names, members of programs, interface bodies, named constructs) are "
+              "ignored. Bounds: <=3 nodes in all 15 renderings + 4 nodes in one rendering each (quick); <=4 / 5 (thorough)."),
+        design="DESIGN.md §4 C04",
+    ),
     "C14": dict(
         category="exploration",
         technique="bounded-exhaustive enumeration of program x fixed-form rendering (comment characters, continuation markers, labels at every place) against the free-form twin through an exact token map; classification of every free-form layout",
